@@ -77,7 +77,7 @@ def _serialize_element(
         del schema["properties"]
     if "properties" in schema:
         schema["required"] = [
-            prop.source or name
+            prop.source if prop.source is not None else name
             for name, prop in schema["properties"].items()
             if prop.required
         ]
